@@ -1,1 +1,516 @@
-fn main() {}
+//! C17 — partial and replaying visitors observe the same facts as a full read.
+//!
+//! Observed: `duke::read_class_multi` with mask-configurable tree visitors (duke::verif::Masked), with `()`, with a
+//! harness-defined SimpleClassVisitor, with `Vec<ClassFile>` over concatenated classes; `ClassFile::accept` (replay).
+//! Oracle: R-visitor of DESIGN.md 9a (src/oracle.rs): F = projection of the full read, E = F restricted to interest(K),
+//! computed from F and K alone; stream position = byte length of the class as emitted / as parsed by the independent parser.
+mod dense;
+mod mask;
+mod oracle;
+mod simple;
+
+use cf::{emit, features, gen, model::*, parse, project};
+use common::{par::*, report::{finish, Meta}, *};
+use duke::tree::class::ClassFile;
+use duke::verif::{Masked, Offer};
+use mask::{bit, bit_name, Level, Pat, BITS, CATEGORIES, K, NBITS};
+use oracle::{judge, ClassHdr, MemberHdr, Obs, Offered, Problem};
+use std::io::{Cursor, Read, Seek, SeekFrom};
+
+// ------------------------------------------------------------------------------------------------ subjects
+
+/// one class file together with everything the oracle needs to know about it
+struct Subject { name: String, bytes: Vec<u8>, model: Class, tree: ClassFile, full: Class, feats: std::collections::BTreeSet<String> }
+
+fn template(msg: &str) -> String {
+    let mut out = String::new(); let mut in_q = false; let mut in_num = false;
+    for c in msg.chars() {
+        if c == '"' { in_q = !in_q; if in_q { out.push_str("\"..\""); } continue; }
+        if in_q { continue; }
+        if c.is_ascii_digit() { if !in_num { out.push('#'); in_num = true; } continue; }
+        in_num = false; out.push(c);
+    }
+    out.chars().take(100).collect()
+}
+
+/// Err(reason) = the FULL read does not succeed on this class: C01's business, the case is skipped (and counted)
+fn subject(name: String, bytes: Vec<u8>, model: Class) -> Result<Subject, String> {
+    let tree = match guard(|| duke::read_class(&mut Cursor::new(&bytes[..]))) { Ok(Ok(t)) => t, Ok(Err(e)) => return Err(format!("full read fails: {}", template(&format!("{e:#}")))), Err(p) => return Err(format!("full read panics: {}", p.site())) };
+    let full = project::project(&tree);
+    let feats = features::features(&model);
+    Ok(Subject { name, bytes, model, tree, full, feats })
+}
+
+// ------------------------------------------------------------------------------------------------ stream wrapper
+
+/// Read + Seek over a byte slice that keeps its own account of the position (independent of Cursor::position)
+struct Tracked<'a> { inner: Cursor<&'a [u8]>, pos: u64, max_touched: u64, reads: u64, seeks: u64 }
+impl<'a> Tracked<'a> { fn new(b: &'a [u8], start: u64) -> Tracked<'a> { let mut inner = Cursor::new(b); inner.set_position(start); Tracked { inner, pos: start, max_touched: start, reads: 0, seeks: 0 } } }
+impl Read for Tracked<'_> {
+    fn read(&mut self, buf: &mut [u8]) -> std::io::Result<usize> { let n = self.inner.read(buf)?; self.pos += n as u64; self.reads += 1; if self.pos > self.max_touched { self.max_touched = self.pos; } Ok(n) }
+}
+impl Seek for Tracked<'_> {
+    fn seek(&mut self, to: SeekFrom) -> std::io::Result<u64> {
+        self.seeks += 1;
+        let p = self.inner.seek(to)?;
+        // own account: recompute from the request, then compare with what the cursor says
+        let mine = match to { SeekFrom::Start(p) => p as i128, SeekFrom::Current(d) => self.pos as i128 + d as i128, SeekFrom::End(d) => self.inner.get_ref().len() as i128 + d as i128 };
+        if mine != p as i128 { eprintln!("HARNESS-ERROR position accounting of the tracking reader disagrees with Cursor ({mine} vs {p})"); std::process::exit(3); }
+        self.pos = p; Ok(p)
+    }
+}
+
+// ------------------------------------------------------------------------------------------------ running visitors
+
+#[derive(Clone, Debug)]
+enum Visitor { Masked(K), Simple(K), Unit, Full }
+impl Visitor {
+    fn name(&self) -> &'static str { match self { Visitor::Masked(_) => "masked tree visitor", Visitor::Simple(_) => "SimpleClassVisitor", Visitor::Unit => "() visitor", Visitor::Full => "Vec<ClassFile> visitor" } }
+    fn k(&self) -> Option<&K> { match self { Visitor::Masked(k) | Visitor::Simple(k) => Some(k), _ => None } }
+}
+
+fn hdr(o: &Offer) -> Option<ClassHdr> {
+    if let Offer::Class { version, access, name, super_class, interfaces, declined } = o {
+        let (major, minor) = duke::verif::version(version);
+        Some(ClassHdr { major, minor, access: (*access).into(), this_class: project::js(name.as_inner()), super_class: super_class.as_ref().map(|s| project::js(s.as_inner())), interfaces: interfaces.iter().map(|i| project::js(i.as_inner())).collect(), declined: *declined })
+    } else { None }
+}
+fn masked_obs(m: &Masked) -> Obs {
+    let mut o = Offered::default();
+    for off in &m.offers {
+        match off {
+            Offer::Class { .. } => { if let Some(h) = hdr(off) { o.classes.push(h); } }
+            Offer::Field { access, name, descriptor, declined } => o.fields.push(MemberHdr { access: (*access).into(), name: project::js(name.as_inner()), desc: project::js(descriptor.as_inner()), declined: *declined }),
+            Offer::Method { access, name, descriptor, declined } => o.methods.push(MemberHdr { access: (*access).into(), name: project::js(name.as_inner()), desc: project::js(descriptor.as_inner()), declined: *declined }),
+            Offer::RecordComponent { name, descriptor, declined } => o.records.push(MemberHdr { access: 0, name: project::js(name.as_inner()), desc: project::js(descriptor.as_inner()), declined: *declined }),
+            Offer::Code { method, visits, declined } => o.code.push((*method, *visits, *declined)),
+        }
+    }
+    Obs { offered: o, built: m.classes.iter().map(project::project).collect() }
+}
+
+/// the K a SimpleClassVisitor probe behaves like: class level only members, fields with the full tree builder
+fn simple_k(k: &K) -> K {
+    let mut s = k.clone();
+    for i in 0..NBITS { match BITS[i].0 { Level::Class => s.bits[i] = BITS[i].1 == "fields" || BITS[i].1 == "methods", Level::Field => s.bits[i] = true, Level::Record => s.bits[i] = false, _ => {} } }
+    s.decline_class = false; s.records = Pat::None;
+    s
+}
+fn simple_cfg(k: &K, s: &Subject) -> simple::SimpleCfg {
+    simple::SimpleCfg { decline_fields: k.fields.expand(s.full.fields.len()), decline_methods: k.methods.expand(s.full.methods.len()), decline_code: k.code.expand(s.full.methods.len()), method: k.method_interests(), code: k.code_mask() }
+}
+
+struct ReadResult { outcome: Result<Option<Obs>, String>, pos_cursor: u64, pos_tracked: u64, max_touched: u64 }
+
+/// one `read_class_multi` call on `stream` starting at `start`, with a fresh visitor of the given kind
+fn read_with(stream: &[u8], start: u64, v: &Visitor, s: &Subject) -> Result<ReadResult, PanicInfo> {
+    guard(|| {
+        let mut t = Tracked::new(stream, start);
+        let n = (s.full.fields.len(), s.full.methods.len(), s.full.record.as_ref().map(|r| r.len()).unwrap_or(0));
+        let outcome = match v {
+            Visitor::Masked(k) => duke::read_class_multi(&mut t, Masked::new(k.to_mask(n.0, n.1, n.2))).map(|m| Some(masked_obs(&m))),
+            Visitor::Simple(k) => duke::read_class_multi(&mut t, simple::SimpleMulti::new(simple_cfg(k, s))).map(|m| simple::observations(m).into_iter().next()),
+            Visitor::Unit => duke::read_class_multi(&mut t, ()).map(|_| None),
+            Visitor::Full => duke::read_class_multi(&mut t, Vec::<ClassFile>::new()).map(|v| Some(Obs { offered: Offered::default(), built: v.iter().map(project::project).collect() })),
+        }.map_err(|e| format!("{e:#}"));
+        ReadResult { outcome, pos_cursor: t.inner.position(), pos_tracked: t.pos, max_touched: t.max_touched }
+    })
+}
+
+/// problems of one read of subject `s` located at `start..end` of `stream`
+fn problems_of_read(stream: &[u8], start: u64, end: u64, v: &Visitor, s: &Subject) -> Vec<Problem> {
+    let mut out = vec![];
+    match read_with(stream, start, v, s) {
+        Err(p) => out.push(Problem { key: format!("panic {}", p.site()), detail: json!({"panic": p.message, "at": format!("{}:{}", p.file, p.line)}) }),
+        Ok(r) => {
+            if r.pos_cursor != r.pos_tracked { eprintln!("HARNESS-ERROR tracking reader and cursor disagree after a read"); std::process::exit(3); }
+            match r.outcome {
+                Err(e) => out.push(Problem { key: "the read fails although the full read of the same class succeeds".into(), detail: json!({"error": e, "cursor_after": r.pos_cursor, "class_start": start, "class_end": end}) }),
+                Ok(obs) => {
+                    if r.pos_cursor != end {
+                        out.push(Problem { key: format!("cursor is not at the end of the class after the read ({})", if r.pos_cursor < end { "before the end" } else { "past the end" }), detail: json!({"cursor_after": r.pos_cursor, "class_start": start, "class_end": end, "off_by": r.pos_cursor as i64 - end as i64}) });
+                    }
+                    match (v, obs) {
+                        (Visitor::Masked(k), Some(o)) => out.extend(judge(&s.full, k, &o)),
+                        (Visitor::Simple(k), Some(mut o)) => { for b in o.built.iter_mut() { b.deprecated = s.full.deprecated; b.synthetic = s.full.synthetic; } out.extend(judge(&s.full, &simple_k(k), &o)) } // the blanket ClassVisitor impl of a SimpleClassVisitor drops Deprecated / Synthetic of the class: nothing to compare
+                        (Visitor::Simple(_), None) => out.push(Problem { key: "visit_class called 0 times for one class".into(), detail: json!({}) }),
+                        (Visitor::Full, Some(o)) => { if o.built.len() != 1 || o.built[0] != s.full { out.push(Problem { key: "Vec<ClassFile> visitor on the stream does not get the class of the single read".into(), detail: json!({"classes": o.built.len()}) }); } }
+                        _ => {}
+                    }
+                }
+            }
+        }
+    }
+    out
+}
+
+fn replay_obs(s: &Subject, k: &K) -> Result<Result<Obs, String>, PanicInfo> {
+    guard(|| {
+        let n = (s.full.fields.len(), s.full.methods.len(), s.full.record.as_ref().map(|r| r.len()).unwrap_or(0));
+        s.tree.clone().accept(Masked::new(k.to_mask(n.0, n.1, n.2))).map(|m| masked_obs(&m)).map_err(|e| format!("{e:#}"))
+    })
+}
+fn problems_of_replay(s: &Subject, k: &K) -> Vec<Problem> {
+    match replay_obs(s, k) {
+        Err(p) => vec![Problem { key: format!("panic {}", p.site()), detail: json!({"panic": p.message}) }],
+        Ok(Err(e)) => vec![Problem { key: "replay into the visitor fails".into(), detail: json!({"error": e}) }],
+        Ok(Ok(o)) => judge(&s.full, k, &o),
+    }
+}
+
+/// The smallest set of deviations from the full-interest / accept-everything visitor under which a problem with the
+/// same key still occurs (greedy, category by category; then bit by bit inside a single interest category).
+fn trigger(k: &K, still: &dyn Fn(&K) -> bool) -> (String, K) {
+    let mut cur = k.clone();
+    for c in 0..CATEGORIES.len() { if cur.has_category(c) { let t = cur.without_category(c); if still(&t) { cur = t; } } }
+    let cats: Vec<usize> = (0..CATEGORIES.len()).filter(|c| cur.has_category(*c)).collect();
+    if cats.is_empty() { return ("none: also with the full-interest, accept-everything visitor".into(), cur); }
+    let mut names: Vec<String> = vec![];
+    for c in &cats {
+        if *c < 5 {
+            let level = [Level::Class, Level::Field, Level::Method, Level::Code, Level::Record][*c];
+            for i in 0..NBITS { if BITS[i].0 == level && !cur.bits[i] { let mut t = cur.clone(); t.bits[i] = true; if still(&t) { cur = t; } } }
+            let off: Vec<usize> = (0..NBITS).filter(|i| BITS[*i].0 == level && !cur.bits[*i]).collect();
+            if off.len() == 1 { names.push(format!("interest {} off", bit_name(off[0]))); } else { names.push(format!("{} (several flags)", CATEGORIES[*c])); }
+        } else { names.push(CATEGORIES[*c].to_string()); }
+    }
+    (names.join(" + "), cur)
+}
+
+/// coarse class of an observation: what kind of thing went wrong, independent of where a derailed parse happened to stop
+fn coarse(key: &str) -> &'static str { if key.starts_with("cursor is not at the end") { "cursor" } else { "disturbed" } }
+fn fatal(key: &str) -> bool { key.starts_with("panic") || key.starts_with("the read fails") || key.starts_with("replay into the visitor fails") }
+
+/// Reports the problems of one evaluation. Signatures:
+///  * the problem also occurs with the full-interest / accept-everything visitor, or the mode is replay: `C17 <mode> (<visitor>): <key>` (fact path / panic site included)
+///  * a read that goes wrong only under some deviation (the trigger, found by minimising the mask): `C17 read (<visitor>) [trigger: ..]: <coarse observation>`.
+///    After a skip that went wrong the parse fails, panics or delivers garbage wherever it happens to stop, so error text / fact path are detail, not signature.
+fn report(rep: &mut Report, mode: &str, v: &Visitor, s: &Subject, problems: Vec<Problem>, rerun: &dyn Fn(&K) -> Vec<Problem>, extra: Value) {
+    if problems.is_empty() { return; }
+    for class in ["cursor", "disturbed"] {
+        let mut mine: Vec<&Problem> = problems.iter().filter(|p| coarse(&p.key) == class).collect();
+        if mine.is_empty() { continue; }
+        // an error or a panic ends the read: the facts of that read are not there to be judged
+        if let Some(f) = mine.iter().find(|p| fatal(&p.key)).copied() { mine = vec![f]; }
+        let (trig, min_k) = match v.k() {
+            Some(k) => { let (t, mk) = trigger(k, &|t: &K| rerun(t).iter().any(|p| coarse(&p.key) == class)); (Some(t), Some(mk)) }
+            None => (None, None),
+        };
+        let detail = |p: &Problem| json!({"class": s.name, "input_hex": hex(&s.bytes), "mask": v.k().map(|k| k.to_json()), "minimal_mask": min_k.as_ref().map(|k| k.to_json()), "observed": p.key, "problem": p.detail, "context": extra});
+        let untriggered = trig.as_ref().is_none_or(|t| t.starts_with("none"));
+        if untriggered || mode == "replay" {
+            let t = match &trig { Some(t) if !t.starts_with("none") => format!(" [trigger: {t}]"), _ => String::new() };
+            for p in mine.iter().take(4) { rep.violation(format!("C17 {mode} ({}): {}{}", v.name(), p.key, t), detail(p)); }
+        } else {
+            let what = if class == "cursor" { mine[0].key.clone() } else { "the read is disturbed: it fails, panics, or delivers facts that differ from the full read".to_string() };
+            rep.violation(format!("C17 {mode} ({}) [trigger: {}]: {}", v.name(), trig.unwrap_or_default(), what), detail(mine[0]));
+        }
+    }
+}
+
+// ------------------------------------------------------------------------------------------------ coverage accounting
+
+struct Cov { on: [u64; NBITS], off: [u64; NBITS] }
+fn any_code<'a>(m: &'a Class, k: &K, nm: usize) -> impl Iterator<Item = &'a Code> + 'a {
+    let dm = k.methods.expand(nm); let dc = k.code.expand(nm);
+    m.methods.iter().enumerate().filter(move |(i, _)| !dm[*i] && !dc[*i]).filter_map(|(_, x)| x.code.as_ref())
+}
+/// is an item governed by interest bit `i` present where a visitor with mask `k` gets to see it (accepted class / member)?
+fn present(m: &Class, k: &K, i: usize) -> bool {
+    if k.decline_class { return false; }
+    let (level, name) = BITS[i];
+    let df = k.fields.expand(m.fields.len()); let dm = k.methods.expand(m.methods.len());
+    let fields = || m.fields.iter().enumerate().filter(|(j, _)| !df[*j]).map(|(_, f)| f);
+    let methods = || m.methods.iter().enumerate().filter(|(j, _)| !dm[*j]).map(|(_, f)| f);
+    let nrec = m.record.as_ref().map(|r| r.len()).unwrap_or(0); let dr = k.records.expand(nrec);
+    let recs = || m.record.iter().flatten().enumerate().filter(|(j, _)| !dr[*j] && k.on(Level::Class, "record")).map(|(_, r)| r);
+    let code_on = k.on(Level::Method, "code");
+    match (level, name) {
+        (Level::Class, "inner_classes") => m.inner_classes.is_some(), (Level::Class, "enclosing_method") => m.enclosing_method.is_some(), (Level::Class, "signature") => m.signature.is_some(),
+        (Level::Class, "source_file") => m.source_file.is_some(), (Level::Class, "source_debug_extension") => m.source_debug_extension.is_some(),
+        (Level::Class, "runtime_visible_annotations") => !m.vis_annotations.is_empty(), (Level::Class, "runtime_invisible_annotations") => !m.invis_annotations.is_empty(),
+        (Level::Class, "runtime_visible_type_annotations") => !m.vis_type_annotations.is_empty(), (Level::Class, "runtime_invisible_type_annotations") => !m.invis_type_annotations.is_empty(),
+        (Level::Class, "module") => m.module.is_some(), (Level::Class, "module_packages") => m.module_packages.is_some(), (Level::Class, "module_main_class") => m.module_main_class.is_some(),
+        (Level::Class, "nest_host") => m.nest_host.is_some(), (Level::Class, "nest_members") => m.nest_members.is_some(), (Level::Class, "permitted_subclasses") => m.permitted_subclasses.is_some(),
+        (Level::Class, "record") => nrec > 0, (Level::Class, "unknown_attributes") => !m.unknown.is_empty(), (Level::Class, "fields") => !m.fields.is_empty(), (Level::Class, "methods") => !m.methods.is_empty(),
+        (Level::Field, "constant_value") => fields().any(|f| f.constant_value.is_some()), (Level::Field, "signature") => fields().any(|f| f.signature.is_some()),
+        (Level::Field, "runtime_visible_annotations") => fields().any(|f| !f.vis_annotations.is_empty()), (Level::Field, "runtime_invisible_annotations") => fields().any(|f| !f.invis_annotations.is_empty()),
+        (Level::Field, "runtime_visible_type_annotations") => fields().any(|f| !f.vis_type_annotations.is_empty()), (Level::Field, "runtime_invisible_type_annotations") => fields().any(|f| !f.invis_type_annotations.is_empty()),
+        (Level::Field, "unknown_attributes") => fields().any(|f| !f.unknown.is_empty()),
+        (Level::Method, "code") => methods().any(|f| f.code.is_some()), (Level::Method, "exceptions") => methods().any(|f| f.exceptions.is_some()), (Level::Method, "signature") => methods().any(|f| f.signature.is_some()),
+        (Level::Method, "runtime_visible_annotations") => methods().any(|f| !f.vis_annotations.is_empty()), (Level::Method, "runtime_invisible_annotations") => methods().any(|f| !f.invis_annotations.is_empty()),
+        (Level::Method, "runtime_visible_type_annotations") => methods().any(|f| !f.vis_type_annotations.is_empty()), (Level::Method, "runtime_invisible_type_annotations") => methods().any(|f| !f.invis_type_annotations.is_empty()),
+        (Level::Method, "runtime_visible_parameter_annotations") => methods().any(|f| f.vis_param_annotations.is_some()), (Level::Method, "runtime_invisible_parameter_annotations") => methods().any(|f| f.invis_param_annotations.is_some()),
+        (Level::Method, "annotation_default") => methods().any(|f| f.annotation_default.is_some()), (Level::Method, "method_parameters") => methods().any(|f| f.method_parameters.is_some()),
+        (Level::Method, "unknown_attributes") => methods().any(|f| !f.unknown.is_empty()),
+        (Level::Code, n) => code_on && any_code(m, k, m.methods.len()).any(|c| match n {
+            "stack_map_table" => c.frames.is_some(), "line_number_table" => c.line_numbers.is_some(), "local_variable_table" => c.lvt.is_some(), "local_variable_type_table" => c.lvtt.is_some(),
+            "runtime_visible_type_annotations" => !c.vis_type_annotations.is_empty(), "runtime_invisible_type_annotations" => !c.invis_type_annotations.is_empty(), _ => !c.unknown.is_empty() }),
+        (Level::Record, "signature") => recs().any(|r| r.signature.is_some()),
+        (Level::Record, "runtime_visible_annotations") => recs().any(|r| !r.vis_annotations.is_empty()), (Level::Record, "runtime_invisible_annotations") => recs().any(|r| !r.invis_annotations.is_empty()),
+        (Level::Record, "runtime_visible_type_annotations") => recs().any(|r| !r.vis_type_annotations.is_empty()), (Level::Record, "runtime_invisible_type_annotations") => recs().any(|r| !r.invis_type_annotations.is_empty()),
+        (Level::Record, _) => recs().any(|r| !r.unknown.is_empty()),
+        _ => false,
+    }
+}
+fn account(cov: &mut Cov, rep: &mut Report, s: &Subject, k: &K, who: &str) {
+    for i in 0..NBITS { if present(&s.model, k, i) { if k.bits[i] { cov.on[i] += 1; } else { cov.off[i] += 1; } } }
+    if k.decline_class { rep.count(&format!("decline.{who}.class")); return; }
+    let nrec = s.model.record.as_ref().map(|r| r.len()).unwrap_or(0);
+    for (kind, pat, n) in [("field", &k.fields, s.model.fields.len()), ("method", &k.methods, s.model.methods.len()), ("record_component", &k.records, nrec), ("code", &k.code, s.model.methods.len())] {
+        if kind == "record_component" && !k.on(Level::Class, "record") { continue; }
+        let d = pat.expand(n);
+        if d.iter().any(|x| *x) {
+            rep.count(&format!("decline.{who}.{kind}.{}", pat.name()));
+            if let Some(first) = d.iter().position(|x| *x) { if d[first..].iter().any(|x| !*x) { rep.count(&format!("decline.{who}.{kind}.accepted_after_declined")); } }
+        }
+    }
+}
+fn flush(cov: &Cov, rep: &mut Report) { for i in 0..NBITS { if cov.on[i] > 0 { rep.add(&format!("interest.{}.on_with_item", bit_name(i)), cov.on[i]); } if cov.off[i] > 0 { rep.add(&format!("interest.{}.off_with_item", bit_name(i)), cov.off[i]); } } }
+
+// ------------------------------------------------------------------------------------------------ per-class evaluation
+
+/// the masks tried on case `i`: all, none, single flags off / on in rotation, decline patterns in rotation, random ones
+fn mask_plan(rng: &mut Rng, i: u64, singles: usize, declines: usize, randoms: usize) -> Vec<K> {
+    let mut v = vec![K::all(), K::none()];
+    for j in 0..singles { let b = ((i as usize) * singles + j) % NBITS; let mut k = K::all(); k.bits[b] = false; v.push(k); let b2 = ((i as usize) * singles + j + 17) % NBITS; let mut k = K::none(); k.bits[b2] = true;
+        // a flag below a member needs the member (and for code flags the Code) to be reached
+        k.bits[bit(Level::Class, "fields")] = true; k.bits[bit(Level::Class, "methods")] = true; if BITS[b2].0 == Level::Code { k.bits[bit(Level::Method, "code")] = true; } if BITS[b2].0 == Level::Record { k.bits[bit(Level::Class, "record")] = true; }
+        v.push(k); }
+    let pats = [Pat::All, Pat::First, Pat::Last, Pat::Every { k: 2, offset: 0 }, Pat::Every { k: 2, offset: 1 }, Pat::Every { k: 3, offset: 1 }, Pat::Random(rng.next_u64())];
+    for j in 0..declines {
+        let x = (i as usize) * declines + j;
+        let p = pats[x % pats.len()].clone();
+        let mut k = if (x / pats.len()) % 2 == 0 { K::all() } else { K::random(rng) };
+        match (x / pats.len()) % 4 { 0 => k.fields = p, 1 => k.methods = p, 2 => { k.records = p; k.bits[bit(Level::Class, "record")] = true; } _ => { k.fields = p.clone(); k.methods = p; } }
+        v.push(k);
+    }
+    for _ in 0..randoms { v.push(K::random(rng)); }
+    // declining a Code attribute (visit_code -> None) and declining the class: a few per case
+    { let mut k = K::all(); k.code = pats[(i as usize) % pats.len()].clone(); v.push(k); }
+    if i % 4 == 0 { let mut k = K::random(rng); k.code = Pat::random(rng); k.bits[bit(Level::Method, "code")] = true; v.push(k); }
+    { let mut k = if i % 2 == 0 { K::all() } else { K::random(rng) }; k.decline_class = true; v.push(k); }
+    v
+}
+
+fn evaluate_class(rep: &mut Report, rng: &mut Rng, s: &Subject, case: u64, sizes: (usize, usize, usize), workload: &str) {
+    let end = s.bytes.len() as u64;
+    let mut cov = Cov { on: [0; NBITS], off: [0; NBITS] };
+    let plan = mask_plan(rng, case, sizes.0, sizes.1, sizes.2);
+    let mut partial = false;
+    for k in &plan {
+        // ---- read with the masked tree visitor
+        let v = Visitor::Masked(k.clone());
+        rep.eval(); rep.count("reads.masked"); rep.count("position.checked");
+        let probs = problems_of_read(&s.bytes, 0, end, &v, s);
+        if probs.is_empty() { rep.count("reads.masked.ok"); }
+        report(rep, "read", &v, s, probs, &|t: &K| problems_of_read(&s.bytes, 0, end, &Visitor::Masked(t.clone()), s), json!({"workload": workload}));
+        account(&mut cov, rep, s, k, "read");
+        if k.bits.iter().any(|b| !*b) || k.fields != Pat::None || k.methods != Pat::None || k.records != Pat::None || k.decline_class { partial = true; }
+        // ---- replay of the full tree into the same kind of visitor
+        rep.eval(); rep.count("replays.masked");
+        let probs = problems_of_replay(s, k);
+        if probs.is_empty() { rep.count("replays.masked.ok"); }
+        report(rep, "replay", &v, s, probs, &|t: &K| problems_of_replay(s, t), json!({"workload": workload}));
+        account(&mut Cov { on: [0; NBITS], off: [0; NBITS] }, rep, s, k, "replay");
+    }
+    flush(&cov, rep);
+    // ---- () : must consume exactly one class
+    { let v = Visitor::Unit; rep.eval(); rep.count("reads.unit"); rep.count("position.checked"); let p = problems_of_read(&s.bytes, 0, end, &v, s); report(rep, "read", &v, s, p, &|_| vec![], json!({"workload": workload})); }
+    // ---- harness-defined SimpleClassVisitor with its own masked method / code visitors
+    for j in 0..2 {
+        let mut k = if j == 0 { K::all() } else { K::random(rng) };
+        k.fields = Pat::random(rng); k.methods = Pat::random(rng); if rng.chance(1, 6) { k.code = Pat::random(rng); }
+        let v = Visitor::Simple(k.clone());
+        rep.eval(); rep.count("reads.simple"); rep.count("position.checked");
+        let p = problems_of_read(&s.bytes, 0, end, &v, s);
+        if p.is_empty() { rep.count("reads.simple.ok"); }
+        report(rep, "read", &v, s, p, &|t: &K| problems_of_read(&s.bytes, 0, end, &Visitor::Simple(t.clone()), s), json!({"workload": workload}));
+        account(&mut Cov { on: [0; NBITS], off: [0; NBITS] }, rep, s, &simple_k(&k), "simple");
+    }
+    // ---- replay into the tree builder reproduces the class
+    {
+        rep.eval(); rep.count("replays.into_builder");
+        match guard(|| s.tree.clone().accept(Vec::<ClassFile>::new()).map_err(|e| format!("{e:#}"))) {
+            Err(p) => rep.violation(format!("C17 replay (Vec<ClassFile> visitor): panic {}", p.site()), json!({"class": s.name, "input_hex": hex(&s.bytes), "panic": p.message})),
+            Ok(Err(e)) => rep.violation("C17 replay (Vec<ClassFile> visitor): replay into the tree builder fails", json!({"class": s.name, "input_hex": hex(&s.bytes), "error": e})),
+            Ok(Ok(v)) => {
+                if v.len() != 1 { rep.violation("C17 replay (Vec<ClassFile> visitor): replay into the tree builder does not produce exactly one class", json!({"class": s.name, "input_hex": hex(&s.bytes), "classes": v.len()})); }
+                else {
+                    let again = project::project(&v[0]);
+                    if again != s.full { for d in cf::diff::diff(&s.full, &again, 4) { rep.violation(format!("C17 replay (Vec<ClassFile> visitor): rebuilt class differs from the replayed one at {}", d.signature()), json!({"class": s.name, "input_hex": hex(&s.bytes), "at": d.at, "tree": d.expected, "rebuilt": d.observed})); } }
+                    else { rep.count("replays.into_builder.equal"); }
+                }
+            }
+        }
+    }
+    for f in &s.feats { let (set, member) = f.split_once('.').unwrap_or(("misc", f)); if set != "insn" && set != "const" && set != "ev" && set != "handle" && set != "local" { rep.seen(&format!("{workload}.{set}"), member); } }
+    if partial && (!s.model.fields.is_empty() || !s.model.methods.is_empty() || s.model.module.is_some()) { rep.nontrivial(features::fingerprint(&s.feats) ^ common::rng::fnv_str(workload)); }
+    if s.bytes.len() < 700 && plan.len() > 4 {
+        rep.sample(|| { let k = &plan[plan.len() - 4]; let o = replay_obs(s, k).ok().and_then(|r| r.ok()); json!({"kind": "class x mask", "class": s.name, "bytes_hex": hex(&s.bytes), "mask": k.to_json(),
+            "received_on_replay": o.map(|o| json!({"fields_offered": o.offered.fields.len(), "methods_offered": o.offered.methods.len(), "built": o.built})) }) });
+    }
+}
+
+// ------------------------------------------------------------------------------------------------ generation
+
+fn gen_subject(rng: &mut Rng, i: u64, small: bool) -> Result<Subject, String> {
+    let mut cfg = gen::GenCfg::default();
+    if small { cfg.max_insns = 12; cfg.max_methods = 3; cfg.max_fields = 3; }
+    // rotate through the regions that need a particular version so that every interest flag meets an item early in the run
+    match i % 8 { 1 => cfg.major = Some(*rng.pick(&[61, 65, 67])), 2 => cfg.major = Some(*rng.pick(&[55, 60, 61])), 3 => cfg.major = Some(52), _ => {} }
+    let mut m = gen::gen_class(rng, &cfg);
+    if i % 16 == 5 && m.module.is_none() {
+        // a module descriptor (the shared generator makes one in about 3% of the classes only)
+        if m.major < 53 { m.major = 61; m.minor = 0; }
+        let mut g = gen::G { rng, cfg: &cfg, major: m.major };
+        let module = g.module();
+        m.access = 0x8000; m.this_class = JS::new("module-info"); m.super_class = None; m.interfaces.clear(); m.fields.clear(); m.methods.clear(); m.record = None;
+        m.module = Some(module);
+    }
+    let p = match i % 4 { 0 => (1, 4), 1 => (1, 2), _ => (3, 4) };
+    dense::densify(&mut m, rng, &cfg, if small { (1, 3) } else { p });
+    let layout = if i % 3 == 0 { emit::Layout::canonical() } else { let mut l = emit::Layout::random(rng.next_u64()); if rng.chance(1, 6) { l.pool_filler = 250 + rng.below(20); } l };
+    let bytes = emit::emit(&m, &layout).map_err(|e| format!("emit: {}", template(&e)))?;
+    // harness self-check: the independent parser reads the model back and agrees on the length
+    match parse::parse_prefix(&bytes, false) {
+        Ok(p) if p.class == m && p.consumed == bytes.len() => {}
+        Ok(p) => { eprintln!("HARNESS-ERROR parse(emit(M)) != M or length differs ({} vs {}): {:?}", p.consumed, bytes.len(), cf::diff::diff(&m, &p.class, 3)); std::process::exit(3); }
+        Err(e) => { eprintln!("HARNESS-ERROR parse(emit(M)) failed: {e}"); std::process::exit(3); }
+    }
+    subject(format!("generated#{i}{}", if layout.canonical { " canonical layout".to_string() } else { format!(" random layout seed={} filler={}", layout.seed, layout.pool_filler) }), bytes, m)
+}
+
+fn main() {
+    let mut ctx = Ctx::from_args("C17", 40, 480);
+    let replay = load_replay(&mut ctx);
+    let mut rep = Report::new();
+
+    // ---- self-checks and canaries: the oracle must accept a correct observation and flag wrong ones
+    {
+        let mut rng = Rng::new(11);
+        let mut found = None;
+        for i in 0..200u64 { if let Ok(s) = gen_subject(&mut rng, i * 8 + 4, false) { if s.full.fields.len() >= 2 && s.full.methods.iter().any(|m| m.code.as_ref().is_some_and(|c| c.line_numbers.is_some())) && s.full.source_file.is_some() { found = Some(s); break; } } }
+        let Some(s) = found else { eprintln!("HARNESS-ERROR canary: no suitable generated class"); std::process::exit(3) };
+        let end = s.bytes.len() as u64;
+        let all = K::all();
+        let ok = problems_of_read(&s.bytes, 0, end, &Visitor::Masked(all.clone()), &s);
+        if !ok.is_empty() { eprintln!("note: canary class already shows a problem with the full-interest visitor: {}", ok[0].key); }
+        // (a) wrong position expectation must be flagged
+        if !problems_of_read(&s.bytes, 0, end - 1, &Visitor::Unit, &s).iter().any(|p| p.key.starts_with("cursor is not at the end")) { eprintln!("HARNESS-ERROR canary: wrong end position not flagged"); std::process::exit(3); }
+        // (b) an observation made with mask A judged against mask B (B wants more) must be flagged as missing
+        let mut a = K::all(); a.bits[bit(Level::Class, "source_file")] = false; a.bits[bit(Level::Code, "line_number_table")] = false; a.fields = Pat::First;
+        let Ok(Ok(obs_a)) = replay_obs(&s, &a) else { eprintln!("HARNESS-ERROR canary: replay failed"); std::process::exit(3) };
+        let Ok(r) = read_with(&s.bytes, 0, &Visitor::Masked(a.clone()), &s) else { eprintln!("HARNESS-ERROR canary: read panicked"); std::process::exit(3) };
+        let Ok(Some(obs_r)) = r.outcome else { eprintln!("HARNESS-ERROR canary: masked read failed"); std::process::exit(3) };
+        if !judge(&s.full, &a, &obs_a).is_empty() || !judge(&s.full, &a, &obs_r).is_empty() { eprintln!("HARNESS-ERROR canary: correct masked observation judged wrong: {:?}", judge(&s.full, &a, &obs_r).first().map(|p| &p.key)); std::process::exit(3); }
+        let keys: Vec<String> = judge(&s.full, &all, &obs_r).into_iter().map(|p| p.key).collect();
+        if !keys.iter().any(|k| k.contains("source_file")) || !keys.iter().any(|k| k.contains("line_numbers")) { eprintln!("HARNESS-ERROR canary: missing items not flagged: {keys:?}"); std::process::exit(3); }
+        // (c) a received item that the full read does not report must be flagged (F altered)
+        let mut wrong = s.full.clone(); wrong.source_file = Some(JS::new("Other.java")); wrong.fields[1].access ^= 1;
+        let mut none = K::none(); none.bits[bit(Level::Class, "fields")] = true;
+        let Ok(Ok(obs_all)) = replay_obs(&s, &all) else { eprintln!("HARNESS-ERROR canary: replay failed"); std::process::exit(3) };
+        let keys: Vec<String> = judge(&wrong, &none, &obs_all).into_iter().map(|p| p.key).collect();
+        if !keys.iter().any(|k| k.contains("received item") && k.contains("source_file")) || !keys.iter().any(|k| k.starts_with("fields offered")) { eprintln!("HARNESS-ERROR canary: foreign items not flagged: {keys:?}"); std::process::exit(3); }
+        // (d) trigger minimisation names the single deviation that matters
+        let (t, _) = trigger(&a, &|k: &K| !k.on(Level::Code, "line_number_table"));
+        if t != "interest code.line_number_table off" { eprintln!("HARNESS-ERROR canary: trigger minimisation gives {t:?}"); std::process::exit(3); }
+    }
+
+    let sizes = ctx.tier.pick((6, 6, 14), (8, 8, 28));
+    // ---- workload 1: javac corpus x masks (more masks per class: few classes)
+    let corpus = cf::corpus::load(&ctx.verif_dir);
+    let rounds = ctx.tier.pick(2u64, 12u64);
+    run_cases(&ctx, &replay, &mut rep, "corpus", corpus.len() as u64 * rounds, |rng, rep, i| {
+        let (name, bytes) = &corpus[(i % corpus.len() as u64) as usize];
+        let model = match parse::parse(bytes) { Ok(m) => m, Err(e) => { eprintln!("HARNESS-ERROR independent parser rejects corpus class {name}: {e}"); std::process::exit(3); } };
+        match subject(format!("corpus {name}"), bytes.clone(), model) {
+            Err(why) => { rep.count("skipped.corpus"); rep.note(format!("corpus class {name} skipped: {why}")); }
+            Ok(s) => { rep.count("classes.corpus"); evaluate_class(rep, rng, &s, i, sizes, "corpus"); }
+        }
+    });
+
+    // ---- workload 2: 2..6 classes concatenated in one stream, one per successive read, a different visitor per read
+    let n = ctx.tier.pick(600, 12_000);
+    run_cases(&ctx, &replay, &mut rep, "streams", n, |rng, rep, i| {
+        let k = rng.usize_in(2, 6);
+        let mut subjects = vec![];
+        for j in 0..k { let small = !rng.chance(1, 4); match gen_subject(rng, i * 8 + j as u64, small) { Ok(s) => subjects.push(s), Err(why) => { rep.count("skipped.streams"); rep.note(format!("generated class skipped: {why}")); return; } } }
+        if rng.chance(1, 3) && !corpus.is_empty() { let (name, bytes) = rng.pick(&corpus); if let Ok(m) = parse::parse(bytes) { if let Ok(s) = subject(format!("corpus {name}"), bytes.clone(), m) { let at = rng.below(subjects.len() + 1); subjects.insert(at, s); subjects.truncate(6); } } }
+        let mut stream = vec![]; let mut bounds = vec![];
+        for s in &subjects { let a = stream.len() as u64; stream.extend_from_slice(&s.bytes); bounds.push((a, stream.len() as u64)); }
+        rep.count(&format!("streams.of_{}", subjects.len()));
+        // (a) a different fresh visitor for every read; every read starts where the previous class ends
+        let mut kinds = vec![];
+        for (j, s) in subjects.iter().enumerate() {
+            let v = match rng.below(10) { 0 => Visitor::Unit, 1 => Visitor::Full, 2 => { let mut k = K::random(rng); k.decline_class = true; Visitor::Masked(k) } 3 => Visitor::Masked(K::none()), 4 | 5 => { let mut k = K::random(rng); k.records = Pat::None; Visitor::Simple(k) } _ => Visitor::Masked(K::random(rng)) };
+            kinds.push(v.name());
+            rep.eval(); rep.count("reads.in_stream"); rep.count("position.checked"); if j > 0 { rep.count("reads.in_stream.not_first"); }
+            let (a, b) = bounds[j];
+            let probs = problems_of_read(&stream, a, b, &v, s);
+            let derailed = probs.iter().any(|p| p.key.starts_with("the read fails") || p.key.starts_with("cursor is not") || p.key.starts_with("panic"));
+            // the same visitor on the class alone: a problem that only shows up inside the stream is a stream problem
+            let alone = |t: &K| problems_of_read(&s.bytes, 0, s.bytes.len() as u64, &match &v { Visitor::Simple(_) => Visitor::Simple(t.clone()), _ => Visitor::Masked(t.clone()) }, s);
+            let only_in_stream = !probs.is_empty() && v.k().is_some_and(|k| alone(k).is_empty());
+            if only_in_stream { for p in probs.iter().take(2) { rep.violation(format!("C17 stream ({}): only when the class is not at the start of the stream: {}", v.name(), p.key), json!({"stream_hex": hex(&stream), "class_bounds": bounds, "read_index": j, "mask": v.k().map(|k| k.to_json()), "problem": p.detail})); } }
+            else { report(rep, "read", &v, s, probs, &alone, json!({"workload": "streams", "read_index": j, "class_bounds": bounds, "visitors": kinds})); }
+            if let Some(k) = v.k() { let kk = if matches!(v, Visitor::Simple(_)) { simple_k(k) } else { k.clone() }; account(&mut Cov { on: [0; NBITS], off: [0; NBITS] }, rep, s, &kk, "stream"); }
+            if derailed { rep.count("streams.abandoned_after_derailed_read"); return; }
+        }
+        // (b) one Vec<ClassFile> visitor carried through k successive reads on one cursor
+        rep.eval(); rep.count("streams.vec_visitor");
+        let r = guard(|| {
+            let mut t = Tracked::new(&stream, 0);
+            let mut v: Vec<ClassFile> = vec![]; let mut pos = vec![];
+            for _ in 0..subjects.len() { match duke::read_class_multi(&mut t, v) { Ok(nv) => { v = nv; pos.push(t.pos); } Err(e) => return Err((format!("{e:#}"), pos)) } }
+            Ok((v, pos))
+        });
+        let detail = |x: Value| json!({"stream_hex": hex(&stream), "class_bounds": bounds, "observed": x});
+        match r {
+            Err(p) => rep.violation(format!("C17 stream (Vec<ClassFile> visitor): panic {}", p.site()), detail(json!(p.message))),
+            Ok(Err((e, pos))) => rep.violation("C17 stream (Vec<ClassFile> visitor): a successive read fails although every class reads alone", detail(json!({"error": e, "positions_after_reads": pos}))),
+            Ok(Ok((v, pos))) => {
+                rep.add("position.checked", pos.len() as u64);
+                let want: Vec<u64> = bounds.iter().map(|b| b.1).collect();
+                if pos != want { rep.violation("C17 stream (Vec<ClassFile> visitor): cursor is not at the end of the class after a successive read", detail(json!({"positions_after_reads": pos, "expected": want}))); }
+                else if v.len() != subjects.len() { rep.violation("C17 stream (Vec<ClassFile> visitor): k concatenated classes are not delivered one per read", detail(json!({"classes": v.len(), "reads": subjects.len()}))); }
+                else if let Some(j) = (0..v.len()).find(|j| project::project(&v[*j]) != subjects[*j].full) { rep.violation("C17 stream (Vec<ClassFile> visitor): class delivered by a successive read differs from reading it alone", detail(json!({"read_index": j}))); }
+                else { rep.count("streams.vec_visitor.ok"); }
+            }
+        }
+        let mut fp = String::new(); for s in &subjects { fp.push_str(&format!("{:x}|", features::fingerprint(&s.feats))); }
+        rep.nontrivial(common::rng::fnv_str(&fp));
+        if stream.len() < 1500 { rep.sample(|| json!({"kind": "stream", "classes": subjects.len(), "class_bounds": bounds, "visitors": kinds, "stream_hex": hex(&stream)})); }
+    });
+
+    // ---- workload 3: generated dense classes x masks (last: the only one a time cut may shorten; its obligations are met within the first few hundred cases)
+    let n = ctx.tier.pick(2_000, 40_000);
+        run_cases(&ctx, &replay, &mut rep, "generated", n, |rng, rep, i| {
+        match gen_subject(rng, i, false) {
+            Err(why) => { rep.count("skipped.generated"); rep.note(format!("generated class skipped: {why}")); }
+            Ok(s) => { rep.count("classes.generated"); evaluate_class(rep, rng, &s, i, sizes, "generated"); }
+        }
+    });
+
+    let mut meta = Meta::new("exploration", "generated dense classes (cf::gen + c17 densify: most attribute kinds at class / field / method / Code / record-component level, 0-7 members, versions 45-67, module descriptors) under canonical and random layouts, the javac corpus, and streams of 2-6 concatenated classes; every class is read and replayed under all/none/single-flag-off/single-flag-on/random interest masks and none/all/first/last/every-k-th/random decline patterns for fields, methods, record components, Code and the class; further visitors: (), a harness-defined SimpleClassVisitor with harness-defined masked method/code visitors, Vec<ClassFile>. A case is non-trivial if a partial mask or a decline met a class with members (or a module); distinct = feature-set fingerprint of the class per workload (streams: tuple of fingerprints)")
+        .assume("F (the full read) is the reference: whether F itself is right is C01's business; classes on which the full read fails are skipped and counted")
+        .assume("the masked visitors forward what they accept unchanged to duke's own tree builders, so the built tree records exactly what was received (duke::verif::Masked inside duke; the SimpleClassVisitor probe outside)")
+        .assume("presence of an item (for the coverage obligations) is taken from the independent parser's model of the same bytes");
+    if replay.is_none() {
+        let mut missing_on = vec![]; let mut missing_off = vec![];
+        for i in 0..NBITS { if rep.get(&format!("interest.{}.on_with_item", bit_name(i))) == 0 { missing_on.push(bit_name(i)); } if rep.get(&format!("interest.{}.off_with_item", bit_name(i))) == 0 { missing_off.push(bit_name(i)); } }
+        meta.oblige(format!("every one of the {NBITS} interest flags seen ON with an item present (missing: {missing_on:?})"), missing_on.is_empty());
+        meta.oblige(format!("every one of the {NBITS} interest flags seen OFF with an item present (missing: {missing_off:?})"), missing_off.is_empty());
+        let mut missing = vec![];
+        for who in ["read", "replay"] { for kind in ["field", "method", "record_component"] { for p in ["all", "first", "last", "every_kth", "random", "accepted_after_declined"] { let key = format!("decline.{who}.{kind}.{p}"); if rep.get(&key) == 0 { missing.push(key); } } } }
+        for key in ["decline.read.class", "decline.replay.class", "decline.read.code.first", "decline.read.code.all", "decline.simple.field.first", "decline.simple.method.last", "decline.stream.method.random"] { if rep.get(key) == 0 { missing.push(key.to_string()); } }
+        meta.oblige(format!("every decline pattern executed for fields, methods and record components, on read and on replay, with an accepted member after a declined one (missing: {missing:?})"), missing.is_empty());
+        let reads = rep.get("reads.masked") + rep.get("reads.unit") + rep.get("reads.simple") + rep.get("reads.in_stream") + rep.get("streams.vec_visitor.ok") * 0;
+        meta.oblige("the position check was executed on every read", rep.get("position.checked") >= reads && reads > 0);
+        meta.oblige("reads at a non-zero stream offset were observed (streams of 2..6 classes)", rep.get("reads.in_stream.not_first") >= 100 && (2..=6).all(|k| rep.get(&format!("streams.of_{k}")) > 0));
+        meta.oblige("corpus classes were evaluated", rep.get("classes.corpus") >= 100);
+        meta.oblige("replay into the tree builder was compared", rep.get("replays.into_builder") >= 100);
+        meta.oblige("(), SimpleClassVisitor and Vec<ClassFile> visitors were exercised", rep.get("reads.unit") > 0 && rep.get("reads.simple") > 0 && rep.get("streams.vec_visitor") > 0);
+    }
+    std::process::exit(finish(&ctx, rep, meta));
+}
